@@ -41,20 +41,25 @@ type WriteRec struct {
 type FaultPlan func(c *Conn, idx, n int) []int
 
 type Conn struct {
-	Name             string
-	rd, wr           *half
-	local            net.Addr
-	remote           net.Addr
-	rdl, wdl         time.Time
-	rdlTimer         *vsched.Timer
-	closed           bool
-	CloseErr         error // returned by Close (models a failing TLS close-notify)
-	Faults           FaultPlan
-	BlockWrite       bool // fault alternative: block until the write deadline, then time out
-	ShortReads       bool // enumerate short reads (1 byte) as a fault alternative
-	nwrites          int
-	Log              *[]WriteRec // shared log of writes (client->server side only, typically)
-	failed           bool        // a write fault was injected: later writes fail too
+	Name       string
+	rd, wr     *half
+	local      net.Addr
+	remote     net.Addr
+	rdl, wdl   time.Time
+	rdlTimer   *vsched.Timer
+	closed     bool
+	CloseErr   error // returned by Close (models a failing TLS close-notify)
+	Faults     FaultPlan
+	BlockWrite bool // fault alternative: block until the write deadline, then time out
+	ShortReads bool // enumerate short reads (1 byte) as a fault alternative
+	nwrites    int
+	Log        *[]WriteRec // shared log of writes (client->server side only, typically)
+	// Sink, if set on a conn, receives every chunk the PEER writes, synchronously in
+	// the writer's thread right after the write (no reader thread, no scheduling
+	// point): a zero-latency network in that direction. The chunk is not queued.
+	Sink             func(data []byte)
+	peer             *Conn
+	failed           bool // a write fault was injected: later writes fail too
 	WritesAfterFault int
 }
 
@@ -82,6 +87,7 @@ func Pipe(name string, clientAddr, serverAddr *net.TCPAddr) (a, b *Conn) {
 	h1, h2 := &half{}, &half{}
 	a = &Conn{Name: name + "/client", rd: h2, wr: h1, local: clientAddr, remote: serverAddr}
 	b = &Conn{Name: name + "/server", rd: h1, wr: h2, local: serverAddr, remote: clientAddr}
+	a.peer, b.peer = b, a
 	return
 }
 
@@ -171,11 +177,15 @@ func (c *Conn) Write(p []byte) (int, error) {
 			}
 		}
 	}
-	if n > 0 {
-		c.wr.buf = append(c.wr.buf, p[:n]...)
-		c.wr.total += n
-	}
 	c.record(p[:n], len(p), werr)
+	if n > 0 {
+		c.wr.total += n
+		if c.peer != nil && c.peer.Sink != nil {
+			c.peer.Sink(append([]byte(nil), p[:n]...))
+		} else {
+			c.wr.buf = append(c.wr.buf, p[:n]...)
+		}
+	}
 	return n, werr
 }
 
